@@ -98,5 +98,8 @@ func getVars(term ast.Term, vars map[ast.Variable]bool) {
 	case ast.Eq:
 		ast.AddVars(t.Left, vars)
 		ast.AddVars(t.Right, vars)
+	case ast.TemporalLiteral:
+		// A temporal literal binds the variables of its atom and of its interval.
+		ast.AddVars(t, vars)
 	}
 }
